@@ -656,6 +656,12 @@ class SimulatedBroker(Broker):
         dt : `pd.Timestamp`
             The current timestamp to update the Broker to.
         """
+        if dt < self.current_dt:
+            raise ValueError(
+                "Update datetime (%s) is earlier than the current "
+                "broker datetime (%s). Cannot update the "
+                "broker." % (dt, self.current_dt)
+            )
         self.current_dt = dt
 
         # Update portfolio asset values
